@@ -181,6 +181,10 @@ func c12Configs() []c12Cfg {
 		c12Subnet("198.51.100.0/29", 1, "Min_Transport", 0, 0), c12Subnet("198.51.100.8/29", 1, "Min_Transport", 0, 0), c12Subnet("198.51.100.16/29", 1, "Min_Transport", 0, 0), c12Subnet("198.51.100.24/29", 1, "Min_Transport", 0, 0),
 		c12Subnet("203.0.113.0/29", 1, "Prefix_Transport", prefix.GetLong, 80), c12Subnet("203.0.113.8/29", 1, "Prefix_Transport", prefix.PostLong, 80), c12Subnet("203.0.113.16/29", 1, "Prefix_Transport", prefix.HTTPResp, 80), c12Subnet("203.0.113.24/29", 2, "Prefix_Transport", prefix.DNSOverTCP, 53),
 	}
+	// override subnets whose prefix_id names no prefix (a typo in reg_config.toml): 99, the first id past the table, -2
+	bad := func(id prefix.PrefixID) []Subnet {
+		return []Subnet{c12Subnet("198.51.100.0/30", 1, "Min_Transport", 0, 0), c12Subnet("203.0.113.0/30", 1, "Prefix_Transport", id, 8443)}
+	}
 	excl := []Subnet{c12Subnet("192.122.190.0/24", 0, "", 0, 0), c12Subnet("141.219.0.0/16", 0, "", 0, 0), c12Subnet("35.8.0.0/16", 0, "", 0, 0)}
 	var out []c12Cfg
 	for _, auth := range []bool{false, true} {
@@ -189,7 +193,7 @@ func c12Configs() []c12Cfg {
 		}
 	}
 	for _, ov := range []string{"none", "rand"} {
-		for si, ss := range [][]Subnet{nil, one, three, lastZero, four, desc} {
+		for si, ss := range [][]Subnet{nil, one, three, lastZero, four, desc, bad(99), bad(prefix.PrefixID(len(prefix.DefaultPrefixes))), bad(-2)} {
 			for _, pc := range []float64{0, 25, 50, 100, 150} {
 				for ei, ex := range [][]Subnet{nil, excl} {
 					out = append(out, c12Cfg{name: fmt.Sprintf("auth=true;ov=%s;enforce=on;subnets=%d;pct=%v;excl=%d", ov, si, pc, ei), auth: true, overrides: ov, enforce: true, subnets: ss, exclusions: ex, pMin: pc, pPref: pc})
@@ -329,6 +333,11 @@ done:
 					continue
 				}
 				u := used[key][s.CIDR.String()]
+				if s.Transport == "Prefix_Transport" && s.PrefixId != prefix.Rand {
+					if _, known := prefix.DefaultPrefixes[s.PrefixId]; !known {
+						continue // a subnet whose prefix_id names no prefix cannot be applied: nothing says it has to be
+					}
+				}
 				if s.Weight > 0 && !u {
 					e.Violation("override-subnet-never-used", fmt.Sprintf("config %s transport %s: subnet %s has weight %v but no draw class selects it", cfg.name, parts[1], s.CIDR.String(), s.Weight), map[string]any{"case": key})
 				}
